@@ -2013,6 +2013,249 @@ Section Cover.
     - cbn [r1 mvf]. apply mvf_aset_lt; [exact 0%N | apply I].
   Qed.
 
+  (* ------------------------------------------------------------------ 2b: a directory of the tree renamed over an empty directory of the tree *)
+  (* phase 1, shared: the reader on MOVED_FROM; MOVED_TO of a directory inside the tree *)
+  Lemma rename_dir_rekey w k r p q ep t_read k0 :
+    wf_fs w -> isdir_in root (w_fs w) -> WInv (w_fs w) k r -> Cover (w_fs w) k r ->
+    npath p -> npath q -> c_recursive C = true ->
+    flookup p (w_fs w) = Some ep -> f_dir ep = true -> scope p -> p <> root -> scope q -> q <> root ->
+    p <> q -> under p q = false -> (forall e, In e (w_fs w) -> under q (f_path e) = false) ->
+    fisdir (dirname q) (w_fs w) = true ->
+    exists kwp kwq kwe r'' evs,
+      watch_of_ino k (ino_of (w_fs w) (dirname p)) = Some kwp /\
+      watch_of_ino k (ino_of (w_fs w) (dirname q)) = Some kwq /\ cov k r ep kwe /\
+      read_batch C t_read (r, k0, [])
+        [mv_from kwp true (k_next_cookie k) (basename p); mv_to kwq true (k_next_cookie k) (basename q)] = Done (r'', k0, evs) /\
+      mvf r'' = aset N.eqb (k_next_cookie k) p (mvf r) /\
+      (forall e kw, In e (w_fs w) -> f_dir e = true -> scope (f_path e) -> f_path e <> q -> cov k r e kw ->
+         alookup beqb (rk p q (f_path e)) (wfp r'') = Some (kw_wd kw) /\
+         alookup N.eqb (kw_wd kw) (pfw r'') = Some (rk p q (f_path e))) /\
+      (forall e kw, In e (w_fs w) -> cov k r e kw -> f_path e <> p -> under p (f_path e) = false ->
+         alookup N.eqb (kw_wd kw) (pfw r'') = Some (f_path e)) /\
+      (forall y wd, alookup beqb y (wfp r'') = Some wd ->
+         exists e kw, In e (w_fs w) /\ f_dir e = true /\ scope (f_path e) /\ f_path e <> q /\ cov k r e kw /\
+                      kw_wd kw = wd /\ y = rk p q (f_path e)).
+  Proof.
+    intros W Hr I Cv Np Nq Hrec Elp Dep Sp Hpr Sq Hqr Hne Hupq Hbelow Edq.
+    destruct (flookup_some _ _ _ Elp) as [Hep Eep].
+    destruct (scope_parent p Np Sp Hpr) as [Sdp _]. destruct (scope_parent q Nq Sq Hqr) as [Sdq _].
+    assert (Urp : under root p = true).
+    { unfold scope in Sp. rewrite Hrec in Sp. destruct Sp as [Sp|Sp]; [contradiction | exact Sp]. }
+    destruct Hr as (er & Her & Eer & Der).
+    assert (Hdp : isdir_in (dirname p) (w_fs w)).
+    { rewrite <- Eep. apply (wf_parent w W ep er Hep Her). now rewrite Eep, Eer. }
+    destruct Hdp as (dp & Hdp & Edp & Ddp). destruct (fisdir_in _ _ Edq) as (dq & Hdq & Edq' & Ddq).
+    rewrite <- Edp in Sdp. rewrite <- Edq' in Sdq.
+    destruct (Cv dp Hdp Ddp Sdp) as (kwp & Cwp & Cpp & Cfp). destruct (Cv dq Hdq Ddq Sdq) as (kwq & Cwq & Cpq & Cfq).
+    destruct (Cv ep Hep Dep) as (kwe & Cwe & Cpe & Cfe); [now rewrite Eep|].
+    assert (Cep : cov k r ep kwe) by (split; [|split]; assumption). rewrite Eep in Cpe, Cfe.
+    assert (Ip : ino_of (w_fs w) (dirname p) = f_ino dp) by (unfold ino_of; rewrite <- Edp; now rewrite (flookup_in _ dp (wf_paths w W) Hdp)).
+    assert (Iq : ino_of (w_fs w) (dirname q) = f_ino dq) by (unfold ino_of; rewrite <- Edq'; now rewrite (flookup_in _ dq (wf_paths w W) Hdq)).
+    exists kwp, kwq, kwe. rewrite Ip, Iq.
+    set (c := k_next_cookie k).
+    destruct (npath_parts p Np) as (Ep & Gdp & Vbp & Jp). destruct (npath_parts q Nq) as (Eq & Gdq & Vbq & Jq).
+    assert (SPp : src_path_of (dirname p) (basename p) = p) by (unfold src_path_of; destruct (basename p); [discriminate Vbp | exact Jp]).
+    assert (SPq : src_path_of (dirname q) (basename q) = q) by (unfold src_path_of; destruct (basename q); [discriminate Vbq | exact Jq]).
+    cbn [read_batch].
+    rewrite (read_one_from _ _ _ _ _ (dirname p)); try (vm_compute; reflexivity); [|cbn [mv_from kev k_wd]; now rewrite Cpp, Edp].
+    cbn [mv_from kev k_cookie k_name]. rewrite SPp.
+    set (r1 := {| wfp := wfp r; pfw := pfw r; mvf := aset N.eqb c p (mvf r); calls := calls r |}).
+    rewrite (read_one_to_rekey _ r1 _ _ _ (dirname q) p (kw_wd kwe)); try (vm_compute; reflexivity);
+      [|cbn [mv_to kev k_wd r1 pfw]; now rewrite Cpq, Edq' | cbn [mv_to kev k_cookie r1 mvf]; apply pset_eq | exact Cfe].
+    cbn [mv_to kev k_name]. rewrite SPq, Hrec. cbv zeta.
+    set (mwd := kw_wd kwe).
+    set (r' := {| wfp := aset beqb q mwd (aremove beqb p (wfp r1)); pfw := aset N.eqb mwd q (pfw r1); mvf := mvf r1; calls := calls r1 |}).
+    eexists _, _. split; [exact Cwp|]. split; [exact Cwq|]. split; [exact Cep|]. split; [reflexivity|].
+    assert (B' : forall x wd, alookup beqb x (wfp r') = Some wd ->
+                (x = q /\ wd = mwd) \/ (x <> q /\ x <> p /\ alookup beqb x (wfp r) = Some wd)).
+    { intros x wd Hx. cbn [r' wfp r1] in Hx. destruct (bytes_eq_dec x q) as [->|Hxq].
+      - rewrite wset_eq in Hx. left. split; congruence.
+      - rewrite wset_neq in Hx by assumption. destruct (bytes_eq_dec x p) as [->|Hxp]; [now rewrite wrem_eq in Hx|].
+        rewrite wrem_neq in Hx by assumption. right. auto. }
+    assert (B'' : forall x wd, x <> q -> x <> p -> alookup beqb x (wfp r) = Some wd -> alookup beqb x (wfp r') = Some wd).
+    { intros x wd Hxq Hxp Hx. cbn [r' wfp r1]. rewrite wset_neq by assumption. now rewrite wrem_neq. }
+    assert (Gp := npath_gpath _ Np).
+    assert (Hsd : forall rest, under p (q ++ sep :: rest) = false).
+    { intros rest. apply under_disjoint; try assumption. rewrite <- Eep. now apply Hbelow. }
+    assert (K1 : forall x wd, alookup beqb x (wfp r') = Some wd -> under q x = false).
+    { intros x wd Hx. destruct (B' x wd Hx) as [[-> _]|(_ & _ & Hx')]; [apply under_irrefl|].
+      destruct (tight_entry w k r x wd I Hx') as (e & _ & He & _ & _ & <- & _). now apply Hbelow. }
+    assert (K2 : forall x y wd, alookup beqb x (wfp r') = Some wd -> alookup beqb y (wfp r') = Some wd -> x = y).
+    { intros x y wd Hx Hy.
+      destruct (B' x wd Hx) as [[-> Ex]|(Nxq & Nxp & Hx')]; destruct (B' y wd Hy) as [[-> Ey]|(Nyq & Nyp & Hy')]; try reflexivity.
+      - subst wd. exfalso. apply Nyp. destruct (wi_tight _ _ _ I y mwd Hy') as [_ Py]. unfold mwd in Py. congruence.
+      - subst wd. exfalso. apply Nxp. destruct (wi_tight _ _ _ I x mwd Hx') as [_ Px]. unfold mwd in Px. congruence.
+      - destruct (wi_tight _ _ _ I x wd Hx') as [_ Px]. destruct (wi_tight _ _ _ I y wd Hy') as [_ Py]. congruence. }
+    destruct (rekey_all p q (proj1 Gp) Hsd r' K1 K2) as [J T].
+    set (r'' := rekey_loop (wfp r') p q r') in *.
+    assert (Pf : forall e kw, In e (w_fs w) -> cov k r e kw -> f_path e <> p -> under p (f_path e) = false ->
+               alookup N.eqb (kw_wd kw) (pfw r'') = Some (f_path e)).
+    { intros e kw He (Cw & Cp & Cf) Nxp Eu. rewrite (j3 _ _ _ _ J).
+      - cbn [r' pfw r1]. rewrite pset_neq; [exact Cp|]. intros E. apply Nxp. unfold mwd in E. rewrite E in Cp. congruence.
+      - intros x0 Hu Hx0. destruct (B' x0 _ Hx0) as [[-> _]|(_ & _ & Hx0')]; [congruence|].
+        destruct (wi_tight _ _ _ I x0 _ Hx0') as [_ P0]. assert (x0 = f_path e) by congruence. subst x0. congruence. }
+    assert (F : forall e kw, In e (w_fs w) -> f_dir e = true -> scope (f_path e) -> f_path e <> q -> cov k r e kw ->
+                alookup beqb (rk p q (f_path e)) (wfp r'') = Some (kw_wd kw) /\
+                alookup N.eqb (kw_wd kw) (pfw r'') = Some (rk p q (f_path e))).
+    { intros e kw He De Se Hxq (Cw & Cp & Cf).
+      destruct (bytes_eq_dec (f_path e) p) as [Exp|Nxp].
+      - assert (e = ep) by (apply (path_inj (w_fs w)); [apply W| | |]; congruence). subst e.
+        assert (kw = kwe) by congruence. subst kw. rewrite Exp, rk_self. fold mwd.
+        assert (Hb : alookup beqb q (wfp r') = Some mwd) by (cbn [r' wfp]; apply wset_eq).
+        split.
+        + destruct (j2 _ _ _ _ J q mwd Hb) as [Hs|(Hu & _)]; [exact Hs | congruence].
+        + rewrite (j3 _ _ _ _ J); [cbn [r' pfw]; apply pset_eq|].
+          intros x0 Hu Hx0. assert (x0 = q) by (eapply K2; eauto). subst x0. congruence.
+      - assert (Hb : alookup beqb (f_path e) (wfp r') = Some (kw_wd kw)) by now apply B''.
+        destruct (under p (f_path e)) eqn:Eu.
+        + destruct (j2 _ _ _ _ J _ _ Hb) as [Hs|(_ & _ & Hm & Hp)]; [rewrite T in Hs by assumption; discriminate | now split].
+        + rewrite rk_other by assumption. split.
+          * destruct (j2 _ _ _ _ J _ _ Hb) as [Hs|(Hu & _)]; [exact Hs | congruence].
+          * apply Pf; try assumption. split; [|split]; assumption. }
+    split; [rewrite (j5 _ _ _ _ J); reflexivity|]. split; [exact F|]. split; [exact Pf|].
+    intros y wd Hy. destruct (j1 _ _ _ _ J y wd Hy) as (x0 & H0 & Hy0).
+    destruct (B' x0 wd H0) as [[-> ->]|(Nq0 & Np0 & H0')].
+    - assert (y = q) by (destruct Hy0 as [->|[Hu _]]; [reflexivity | congruence]). subst y.
+      exists ep, kwe. rewrite Eep, rk_self.
+      split; [exact Hep|]. split; [exact Dep|]. split; [exact Sp|]. split; [exact Hne|]. split; [exact Cep|]. split; reflexivity.
+    - destruct (tight_entry w k r x0 wd I H0') as (e & kw & He & De & Se & Ee & Hk & Ewd & Ei).
+      destruct (wi_tight _ _ _ I x0 wd H0') as [_ P0].
+      assert (Ce : cov k r e kw).
+      { split; [|split]; rewrite ?Ee, ?Ewd; try assumption. apply watch_of_ino_in; [apply I | assumption | congruence]. }
+      exists e, kw. split; [exact He|]. split; [exact De|]. split; [exact Se|]. split; [congruence|]. split; [exact Ce|].
+      split; [exact Ewd|]. rewrite Ee.
+      destruct Hy0 as [->|[Hu ->]]; [|reflexivity].
+      destruct (under p x0) eqn:Eu; [rewrite T in Hy by assumption; discriminate|]. now rewrite rk_other.
+  Qed.
+
+  Lemma read_one_ignored_other t r k acc wd p w' : alookup N.eqb wd (pfw r) = Some p ->
+    alookup beqb p (wfp r) = Some w' -> w' <> wd ->
+    read_one C t (r, k, acc) {| k_wd := wd; k_mask := IN_IGNORED; k_cookie := 0; k_name := [] |} =
+    Done ({| wfp := wfp r; pfw := aremove N.eqb wd (pfw r); mvf := mvf r; calls := calls r |}, k,
+          acc ++ [{| r_wd := wd; r_mask := IN_IGNORED; r_cookie := 0; r_name := []; r_path := p |}]).
+  Proof.
+    intros Hp Hw Hne. unfold read_one. cbn [k_wd k_mask k_cookie k_name]. rewrite Hp.
+    change (is_moved_from IN_IGNORED) with false. change (is_moved_to IN_IGNORED) with false.
+    change (is_ignored IN_IGNORED) with true. change (is_directory IN_IGNORED) with false. cbv iota.
+    cbn [pfw wfp mvf calls]. rewrite Hp, Hw. apply N.eqb_neq in Hne. rewrite Hne. rewrite andb_false_r. reflexivity.
+  Qed.
+
+  Theorem step_rename_dir_over w k r p q w' ep v : RSync w k r -> npath p -> npath q -> c_recursive C = true ->
+    N.land IN_MOVED_FROM (c_mask C) <> 0%N -> N.land IN_MOVED_TO (c_mask C) <> 0%N ->
+    apply_op w (Rename p q) = Some w' ->
+    flookup p (w_fs w) = Some ep -> f_dir ep = true -> scope p -> p <> root -> scope q -> q <> root ->
+    flookup q (w_fs w) = Some v -> f_dir v = true ->
+    let k1 := kernel_op k (w_fs w) (Rename p q) in
+    exists r' k' evs, read_batch C (w_fs w') (r, drainq k1, []) (k_queue k1) = Done (r', k', evs) /\ RSync w' k' r'.
+  Proof.
+    intros S Np Nq Hrec Hmf Hmt Ha Elp Dep Sp Hpr Sq Hqr Elq Dv k1. destruct S as [W Hr I Cv Hq].
+    assert (W' : wf_fs w') by exact (wf_apply_op w (Rename p q) w' W (conj Np Nq) Ha).
+    destruct (rename_inv w p q w' W Np Nq Ha) as (ep' & t1 & Elp' & Hne & Hupq & Edq & -> & Hbelow & Hq1).
+    assert (ep' = ep) by congruence. subst ep'.
+    destruct Hq1 as [[E _]|(v' & Ev & -> & _)]; [congruence|]. assert (v' = v) by congruence. subst v'.
+    destruct (flookup_some _ _ _ Elp) as [Hep Eep]. destruct (flookup_some _ _ _ Elq) as [Hv Evp].
+    assert (Sv : scope (f_path v)) by now rewrite Evp.
+    destruct (Cv v Hv Dv Sv) as (kwv & Cvv). assert (Cvv' := Cvv). destruct Cvv' as (Cwv & Cpv & Cfv). rewrite Evp in Cpv, Cfv.
+    assert (Fq : fisdir q (w_fs w) = true) by (unfold fisdir; now rewrite Elq).
+    assert (Fp : fisdir p (w_fs w) = true) by (unfold fisdir; now rewrite Elp).
+    assert (Iv : ino_of (w_fs w) q = f_ino v) by (unfold ino_of; now rewrite Elq).
+    set (t' := frename p q (fremove q (w_fs w))) in *.
+    set (kf := {| k_watches := filter (fun x => negb (N.eqb (kw_wd x) (kw_wd kwv))) (k_watches k); k_next_wd := k_next_wd k;
+                  k_queue := []; k_next_cookie := k_next_cookie k + 1 |}).
+    destruct (rename_dir_rekey w k r p q ep t' kf W Hr I Cv Np Nq Hrec Elp Dep Sp Hpr Sq Hqr Hne Hupq Hbelow Edq)
+      as (kwp & kwq & kwe & r'' & evs0 & Cwp & Cwq & Cep & Hrd1 & Hmv & F & Pf & T).
+    (* the kernel *)
+    subst k1. cbn [kernel_op w_fs]. rewrite Fq.
+    set (k2 := knotify (knotify _ _ _ _ _ _) _ _ _ _ _).
+    assert (Ek2 : k2 = {| k_watches := k_watches k; k_next_wd := k_next_wd k;
+              k_queue := [mv_from kwp true (k_next_cookie k) (basename p); mv_to kwq true (k_next_cookie k) (basename q)];
+              k_next_cookie := k_next_cookie k + 1 |}).
+    { unfold k2. rewrite rename_kernel; [|exact Hq|].
+      - now rewrite Cwp, Cwq, Fp.
+      - intros kw Hk. rewrite (wi_mask _ _ _ I kw Hk). now split. }
+    rewrite Iv.
+    destruct (kgone_spec k2 (f_ino v) true kwv) as (pre & -> & Hpre).
+    { rewrite (watch_of_ino_ext k k2) by (rewrite Ek2; reflexivity). exact Cwv. }
+    { rewrite Ek2. cbn [k_queue]. intros a [<-|[<-|[]]]; (split; [intros [H|H]; vm_compute in H; discriminate | vm_compute; discriminate]). }
+    rewrite Ek2. unfold drainq, kset_queue. cbn [k_watches k_next_wd k_queue k_next_cookie]. fold kf.
+    change ([mv_from kwp true (k_next_cookie k) (basename p); mv_to kwq true (k_next_cookie k) (basename q)] ++ pre ++ [ign_ev kwv])
+      with ([mv_from kwp true (k_next_cookie k) (basename p); mv_to kwq true (k_next_cookie k) (basename q)] ++ (pre ++ [ign_ev kwv])).
+    rewrite read_batch_app, Hrd1.
+    (* the events about the replaced directory *)
+    assert (Hpq'' : alookup N.eqb (kw_wd kwv) (pfw r'') = Some q).
+    { rewrite <- Evp. apply Pf; try assumption; rewrite Evp; [congruence|]. destruct (under p q) eqn:E; congruence. }
+    assert (Hne_wd : kw_wd kwe <> kw_wd kwv).
+    { intros E. destruct Cep as (Cwe & _). destruct (watch_of_ino_some _ _ _ Cwe) as [Hke Eie].
+      destruct (watch_of_ino_some _ _ _ Cwv) as [Hkv Eiv].
+      assert (kwe = kwv) by (apply (wd_inj k); [apply I| | |]; assumption). subst kwe.
+      assert (ep = v) by (apply (ino_inj w); try assumption; congruence). subst v. congruence. }
+    assert (Hwq'' : alookup beqb q (wfp r'') = Some (kw_wd kwe)).
+    { destruct (F ep kwe Hep Dep) as [F1 _]; [now rewrite Eep | congruence | exact Cep|]. now rewrite Eep, rk_self in F1. }
+    assert (Hpre_inert : Forall (inert_ev r'') pre).
+    { eapply Forall_impl; [|exact Hpre]. intros a (A1 & A2 & A3). split; [now apply self_mask_inert|]. rewrite A1. eauto. }
+    rewrite read_batch_app.
+    destruct (read_batch_inert t' r'' kf pre Hpre_inert evs0) as (evs1 & -> & _).
+    cbn [read_batch]. unfold ign_ev. rewrite (read_one_ignored_other _ _ _ _ _ q (kw_wd kwe) Hpq'' Hwq'' Hne_wd).
+    set (rf := {| wfp := wfp r''; pfw := aremove N.eqb (kw_wd kwv) (pfw r''); mvf := mvf r''; calls := calls r'' |}).
+    eexists _, _, _. split; [reflexivity|].
+    (* entries *)
+    assert (Hin' : forall e, In e (w_fs w) -> f_path e <> q -> In (ren p q e) t').
+    { intros e He Hn. unfold t'. rewrite frename_map. apply in_map. apply fremove_in. now split. }
+    assert (Hfil : forall x, In x (k_watches kf) <-> In x (k_watches k) /\ kw_wd x <> kw_wd kwv).
+    { intros x. cbn [kf k_watches]. rewrite filter_In, negb_true_iff, N.eqb_neq. tauto. }
+    assert (Hnotv : forall e kw, In e (w_fs w) -> cov k r e kw -> f_path e <> q -> kw_wd kw <> kw_wd kwv).
+    { intros e kw He (Cw & _) Hn E. destruct (watch_of_ino_some _ _ _ Cw) as [Hk Ei].
+      destruct (watch_of_ino_some _ _ _ Cwv) as [Hkv Eiv].
+      assert (kw = kwv) by (apply (wd_inj k); [apply I| | |]; assumption). subst kw.
+      assert (e = v) by (apply (ino_inj w); try assumption; congruence). subst e. congruence. }
+    assert (Urp : under root p = true).
+    { unfold scope in Sp. rewrite Hrec in Sp. destruct Sp as [Sp'|Sp']; [contradiction | exact Sp']. }
+    destruct Hr as (er & Her & Eer & Der).
+    assert (Hren_root : ren p q er = er).
+    { unfold ren. rewrite Eer. destruct (beqb root p) eqn:E; [apply beqb_eq in E; congruence|].
+      now rewrite (under_antisym _ _ Urp). }
+    constructor.
+    - exact W'.
+    - exists er. cbn [w_fs]. split; [|auto]. rewrite <- Hren_root. apply Hin'; [exact Her | congruence].
+    - cbn [w_fs]. constructor; cbn [rf wfp pfw mvf].
+      + intros x Hx. apply Hfil in Hx as [Hx _]. cbn [kf k_next_wd]. now apply (wi_lt _ _ _ I).
+      + apply NoDup_map_filter, I.
+      + apply NoDup_map_filter, I.
+      + intros x Hx. apply Hfil in Hx as [Hx _]. now apply (wi_mask _ _ _ I).
+      + intros kw Hk. apply Hfil in Hk as [Hk Hnw].
+        destruct (wi_exact _ _ _ I kw Hk) as (e & He & De & Se & Ie & Pe & We).
+        assert (Ce : cov k r e kw).
+        { split; [|split]; try assumption. apply watch_of_ino_in; [apply I | assumption | congruence]. }
+        assert (Hnq : f_path e <> q).
+        { intros E. assert (e = v) by (apply (path_inj (w_fs w)); [apply W| | |]; congruence). subst e.
+          destruct Ce as (Cw' & _). assert (kw = kwv) by congruence. congruence. }
+        destruct (F e kw He De Se Hnq Ce) as [F1 F2].
+        exists (ren p q e). rewrite ren_path, ren_dir, ren_ino. repeat split; try assumption.
+        * now apply Hin'.
+        * now apply scope_rk.
+        * now rewrite prem_neq.
+      + intros y wd Hy. destruct (T y wd Hy) as (e & kw & He & De & Se & Hnq & Ce & Ewd & Ey).
+        assert (Hnw := Hnotv e kw He Ce Hnq). destruct (F e kw He De Se Hnq Ce) as [_ F2].
+        destruct Ce as (Cw' & _). destruct (watch_of_ino_some _ _ _ Cw') as [Hk _].
+        split; [exists kw; split; [apply Hfil; now split | exact Ewd]|].
+        rewrite <- Ewd, prem_neq by assumption. now rewrite Ey.
+      + rewrite Hmv. cbn [kf k_next_cookie]. apply mvf_aset_lt; [exact 0%N | apply I].
+    - cbn [w_fs]. intros e' He' De' Se'. unfold t' in He'. rewrite frename_map in He'.
+      apply in_map_iff in He' as (e & <- & He). apply fremove_in in He as [He Hnq].
+      rewrite ren_dir in De'. rewrite ren_path in Se'.
+      assert (Se : scope (f_path e)).
+      { unfold rk in Se'. destruct (beqb (f_path e) p) eqn:E1; [apply beqb_eq in E1; now rewrite E1|].
+        destruct (under p (f_path e)) eqn:E2; [|exact Se']. unfold scope. rewrite Hrec. right.
+        eapply under_trans; eassumption. }
+      destruct (Cv e He De' Se) as (kw & Ce). destruct (F e kw He De' Se Hnq Ce) as [F1 F2].
+      assert (Hnw := Hnotv e kw He Ce Hnq).
+      exists kw. unfold cov. rewrite ren_ino, ren_path. cbn [rf wfp pfw]. split; [|split]; try assumption.
+      * destruct Ce as (Cw' & _). destruct (watch_of_ino_some _ _ _ Cw') as [Hk Ei].
+        apply watch_of_ino_in; [apply NoDup_map_filter, I | apply Hfil; now split | exact Ei].
+      * now rewrite prem_neq.
+    - reflexivity.
+  Qed.
+
   (* ------------------------------------------------------------------ 2b: a directory moved into the tree from outside *)
   Lemma ino_unwatched w k r d : wf_fs w -> WInv (w_fs w) k r -> ~ scope d -> watch_of_ino k (ino_of (w_fs w) d) = None.
   Proof.
@@ -2249,6 +2492,9 @@ Section Cover.
   | co_rename_dir_in p q ep : npath p -> npath q -> c_recursive C = true -> c_fix_movein C = true ->
       flookup p (w_fs w) = Some ep -> f_dir ep = true -> ~ scope p -> under p root = false -> scope q ->
       flookup q (w_fs w) = None -> covered_op w (Rename p q)                      (* directory, moved in from outside *)
+  | co_rename_dir_over p q ep v : npath p -> npath q -> c_recursive C = true -> flookup p (w_fs w) = Some ep -> f_dir ep = true ->
+      scope p -> p <> root -> scope q -> q <> root -> flookup q (w_fs w) = Some v -> f_dir v = true ->
+      covered_op w (Rename p q)                            (* directory of the tree over an empty directory of the tree *)
   | co_rename_dir_plain p q ep : npath p -> npath q -> flookup p (w_fs w) = Some ep -> f_dir ep = true ->
       p <> root -> q <> root -> under p root = false -> (c_recursive C = false \/ (~ scope p /\ ~ scope q)) ->
       covered_op w (Rename p q).              (* directory, non-recursive watch or entirely outside the tree *)
@@ -2259,7 +2505,9 @@ Section Cover.
   Proof.
     intros (M1 & M2 & M3) S Ho Ha k1.
     destruct Ho as [o Hq Hn|p Hn|p Hn Hr|p q ep Np Nq El De Ed|p q ep Np Nq Hrec El De Sp Hpr Sq Elq
-                    |p q ep Np Nq Hrec Hfix El De Sp Hpr Sq Elq|p q ep Np Nq El De Hpr Hqr Hupr Hpl].
+                    |p q ep Np Nq Hrec Hfix El De Sp Hpr Sq Elq|p q ep v Np Nq Hrec El De Sp Hpr Sq Hqr Elq Dv
+                    |p q ep Np Nq El De Hpr Hqr Hupr Hpl].
+    7:{ eapply step_rename_dir_over; eassumption. }
     - destruct (step_quiet w k r o w' S Hn Hq Ha) as (evs & H1 & _ & H2). eauto.
     - destruct (step_mkdir w k r p w' S Hn Ha M1) as (r' & k' & evs & H1 & H2 & _). eauto.
     - apply step_rmdir; assumption.
